@@ -476,7 +476,7 @@ def gen_provide(h, rng, p, u):
         d, n = funds[0]
         funds[0] = (d, max(0, n + rng.choice([-1, 1])))
     if mode == 4:                     # swapped listing order
-        return ("provide", p, u, funds, a1, n1, a0, n0, rng.choice([None, 10 ** 16, 5 * 10 ** 17, D]), rng.choice([None, u, USER0 + 2]))
+        return ("provide", p, u, funds, a1, n1, a0, n0, rng.choice([None, 10 ** 16, 5 * 10 ** 17, D]), rng.choice([None, u, h.users()[-1]]))
     tol = rng.choice([None, None, 0, 10 ** 15, 10 ** 16, 5 * 10 ** 17, D, D + 1])
     rcv = rng.choice([None, None, None, rng.choice(h.users())])
     return ("provide", p, u, funds, a0, n0, a1, n1, tol, rcv)
@@ -678,20 +678,31 @@ def extreme_histories(rng, tier):
 
 
 def auth_matrix(rng, tier):
-    """every execute variant of the three contracts x every caller role, before and after an ownership transfer"""
+    """every execute variant of the three contracts x every caller role, before and after an ownership transfer.
+    Every attempt is otherwise VALID (fresh asset pair, caller whitelisted by its own message, registered denom the
+    factory holds, existing pair), so that only the authorisation check can reject it; the owner goes last."""
     cases = []
     for rep in range({"quick": 1, "thorough": 4}[tier]):
-        h = Hist(4, 2, 2, 4, 10 ** 12, 1000, [6, 6], "directed-matrix", "C14 caller-role matrix")
+        h = Hist(4, 3, 3, 6, 10 ** 12, 1000, [6, 6, 8], "directed-matrix", "C14 caller-role matrix")
         created = setup_pairs(h, rng, [(("n", 0), ("t", 2)), (("t", 2), ("t", 3))])
         p = created[0]
         lp = h.pair_lp(p)
+        assets = [("n", d) for d in range(3)] + [("t", 2 + i) for i in range(3)]
+        fresh = [(a, b) for i, a in enumerate(assets) for b in assets[i + 1:]
+                 if (a, b) not in [(("n", 0), ("t", 2)), (("t", 2), ("t", 3))]]
+        rng.shuffle(fresh)
         for phase in (0, 1):
             owner = h.owner()
             former = USER0 if phase == 1 else None
-            roles = [owner, USER0 + 3, FACTORY, ROUTER, p, lp, 2, created[1]] + ([former] if former is not None else [])
+            roles = [h.users()[-1], FACTORY, ROUTER, p, lp, 2, created[1]] + ([former] if former is not None else []) + [owner]
             for c in roles:
+                wl = [c] if rng.random() < 0.7 else [c, USER0]
                 h.do(("fac_add_native", c, 1, 7 + phase))
-                h.do(("fac_create_pair", c, ("n", 1), ("t", 3 if phase == 0 else 2), [USER0], 0, 0, None, None))
+                if fresh and len(h.pairs()) < h.maxp:
+                    a0, a1 = fresh[0]
+                    ok, _ = h.do(("fac_create_pair", c, a0, a1, wl, 0, 0, None, None))
+                    if ok:
+                        fresh.pop(0)
                 h.do(("fac_migrate", c, p))
                 h.do(("pair_upd_dec", p, c, 0, 9, 9))
                 h.do(("pair_receive", p, c, [], USER0, 10, ("hwithdraw",)))
@@ -751,7 +762,7 @@ def swap_matrix(rng, tier):
         for p in created:
             assets = h.pair_assets(p)
             named_set = assets + [("t", 4), ("n", 1 if ("n", 1) not in assets else 0)]
-            for rcv in (None, USER0 + 2, p):
+            for rcv in (None, h.users()[-1], p):
                 for named in named_set:
                     for namt in (a, a - 1, a + 1, 0):
                         # execute path
